@@ -48,3 +48,17 @@ Theorem subsec_roundtrip : forall fs k, 0 <= fs < 10 ^ 15 -> no_digit_head k ->
   (fs <> 0 -> parse_subseconds (frac_min fs ++ k) = OK (Some (fs, k))).
 Proof. exact subsec_roundtrip_lemma. Qed.
 Print Assumptions subsec_roundtrip.
+
+From CCTZ Require Import FinishDefs FinishProofs.
+
+(* the RFC 3339 format with full sub-second precision round-trips, for every instant whose year fits *)
+Theorem rfc3339_roundtrip : forall strftime_o strptime_o utc tz al fs t,
+  reset_to_builtin_utc 0 = OK utc ->
+  valid_fields (al_cs al) = true -> int64 (fy (al_cs al)) -> -86400 < al_off al < 86400 ->
+  0 <= fs < 10 ^ 15 -> int64 t ->
+  sec_of (al_cs al) = t + al_off al ->
+  exists txt, format_impl strftime_o rfc3339 al fs t = OK txt /\
+              parse_impl strptime_o tz utc rfc3339 txt = OK (Some (t, fs)).
+Proof. exact rfc3339_roundtrip_lemma. Qed.
+Print Assumptions rfc3339_roundtrip.
+
